@@ -25,7 +25,7 @@ package flowcontrols
 //@   ensures [each_removed] !smhas(FCM, elem)
 //@   ensures [only_removes] forall k ref :: {smhas(FCM, k)} smhas(FCM, k) ==> old(smhas(FCM, k)) && smget(FCM, k) == old(smget(FCM, k))
 //@   ensures [within_iterated] forall k ref :: {smhas(FCM, k)} old(smhas(FCM, k)) && !smhas(FCM, k) ==> (k in gsmem[iterated])
-//@   ensures [kept_outside] forall k ref :: {smhas(FCM, k)} {k in gsmem[iterated]} old(smhas(FCM, k)) && !(k in gsmem[iterated]) ==> smhas(FCM, k) && smget(FCM, k) == old(smget(FCM, k))
+//@   ensures [kept_outside] forall k ref :: {smhas(FCM, k)} {k in gsmem[iterated]} {smget(FCM, k)} {old(smhas(FCM, k))} old(smhas(FCM, k)) && !(k in gsmem[iterated]) ==> smhas(FCM, k) && smget(FCM, k) == old(smget(FCM, k))
 //@   ensures [sets_kept] gsmem == old(gsmem)
 //@   ensures [removed_stopped] forall k ref :: {smhas(FCM, k)} old(smhas(FCM, k)) && !smhas(FCM, k) ==> (old(smget(FCM, k)) in fccstopped)
 //@   ensures [stop_monotone] forall x ref :: {x in fccstopped} old(x in fccstopped) ==> (x in fccstopped)
@@ -52,14 +52,14 @@ package flowcontrols
 //@   ensures [removed_stopped] forall k ref :: {smhas(FCM, k)} old(smhas(FCM, k)) && !smhas(FCM, k) ==> (old(smget(FCM, k)) in fccstopped)
 //@   ensures [spec_stored] defined(oldset) ==> hasStored && SPECP.Schemas == NEWS
 //@   loop 0: invariant [bounds] 0 <= idx && idx <= len(oldObj.Schemas) && oldset != newset
-//@   loop 0: invariant [oldset] forall x ref :: {x in gsmem[oldset]} (x in gsmem[oldset]) <==> typeis(x, "string") && schemaListed(take(oldObj.Schemas, idx), unbox(x, "string"))
+//@   loop 0: invariant [oldset] forall x ref :: {x in gsmem[oldset]} (x in gsmem[oldset]) <==> typeis(x, "string") && schemaListedUpTo(oldObj.Schemas, idx, unbox(x, "string"))
 //@   loop 0: invariant [newset] forall x ref :: {x in gsmem[newset]} !(x in gsmem[newset])
 //@   loop 1: invariant [bounds] 0 <= idx && idx <= len(NEWS) && oldset != newset
 //@   loop 1: invariant [oldset] forall x ref :: {x in gsmem[oldset]} (x in gsmem[oldset]) <==> typeis(x, "string") && schemaListed(oldObj.Schemas, unbox(x, "string"))
-//@   loop 1: invariant [newset] forall x ref :: {x in gsmem[newset]} (x in gsmem[newset]) <==> typeis(x, "string") && schemaListed(take(NEWS, idx), unbox(x, "string"))
+//@   loop 1: invariant [newset] forall x ref :: {x in gsmem[newset]} (x in gsmem[newset]) <==> typeis(x, "string") && schemaListedUpTo(NEWS, idx, unbox(x, "string"))
 //@   loop 1: invariant [wf] fcmWF
-//@   loop 1: invariant [keys] forall k ref :: {smhas(FCM, k)} smhas(FCM, k) <==> old(smhas(FCM, k)) || (typeis(k, "string") && schemaListed(take(NEWS, idx), unbox(k, "string")))
-//@   loop 1: invariant [kept] forall k ref :: {smhas(FCM, k)} old(smhas(FCM, k)) ==> smget(FCM, k) == old(smget(FCM, k))
+//@   loop 1: invariant [keys] forall k ref :: {smhas(FCM, k)} {old(smhas(FCM, k))} smhas(FCM, k) <==> old(smhas(FCM, k)) || (typeis(k, "string") && schemaListedUpTo(NEWS, idx, unbox(k, "string")))
+//@   loop 1: invariant [kept] forall k ref :: {smhas(FCM, k)} {smget(FCM, k)} {old(smhas(FCM, k))} old(smhas(FCM, k)) ==> smget(FCM, k) == old(smget(FCM, k))
 //@   loop 1: invariant [none_stopped] fccstopped == old(fccstopped)
 
 // A request is metered by the remote (global) limiter only when the cluster is in remote mode, the schema has a non-local
